@@ -282,3 +282,85 @@ func TestLogRacesGC(t *testing.T) {
 		sub.Case(vf.Digest(i), true)
 	}
 }
+
+// TestGCBoundaries: "entries are kept until their expiry and dropped by garbage collection afterwards",
+// at the resolution of the timestamps the log stores (nanoseconds), not of a coarser unit: collections
+// shortly before the expiry (down to 1 ns, and anywhere within the same wall-clock second) keep the
+// entry, a collection at or after it drops it.
+func TestGCBoundaries(t *testing.T) {
+	run := vf.Cur()
+	sub := run.Sub("gc-boundaries", "real notification log in a virtual-time bubble; an entry is logged at a random sub-second offset with expiry 1-90 min, so that its expiry instant E has a random nanosecond part; GC runs at E-d for d drawn from {1 ns, 1 us, 1 ms, a random fraction of the second E lies in, 1 s, 1 min}: Query must still return the entry after each; then GC at E+d' (d' in {0, 1 ns, 1 ms, 2 s}): Query must return not-found; a sibling entry with a later expiry must survive all of it; non-trivial = some collection ran inside the wall-clock second of E before E; distinct by (seed)", 50)
+	n := run.N(200, 20000)
+	vf.Parallel(t, n, 16, func(t *testing.T, i int) {
+		r := sub.Rand(i)
+		sameSecond := false
+		synctest.Test(t, func(t *testing.T) {
+			l, _, err := newLog(nil)
+			if err != nil {
+				t.Fatal(err)
+			}
+			rc := receivers[0]
+			time.Sleep(time.Duration(r.Int63n(int64(3 * time.Second))))
+			exp := time.Duration(1+r.Intn(90))*time.Minute + time.Duration(r.Intn(3))*time.Duration(r.Int63n(int64(time.Second)))
+			const K, S = "{}:{alertname=\"K\"}", "{}:{alertname=\"S\"}"
+			if err := l.Log(rc, S, []uint64{7}, nil, nil, exp+time.Hour); err != nil {
+				t.Fatal(err)
+			}
+			time.Sleep(time.Millisecond)
+			logged := time.Now()
+			if err := l.Log(rc, K, []uint64{1}, nil, nil, exp); err != nil {
+				t.Fatal(err)
+			}
+			es, err := l.Query(nflog.QGroupKey(K), nflog.QReceiver(rc))
+			if err != nil || len(es) != 1 || !es[0].Timestamp.AsTime().Equal(logged) {
+				sub.Inconclusive("entry not readable right after Log (or not stamped with the instant of the call)")
+				return
+			}
+			E := logged.Add(exp) // expiry = instant of the call + the expiry asked for (below the retention)
+			frac := time.Duration(E.Nanosecond())
+			var before []time.Duration
+			for _, d := range []time.Duration{time.Minute, time.Second, time.Millisecond, time.Microsecond, time.Nanosecond} {
+				before = append(before, d)
+			}
+			if frac > 2 {
+				before = append(before, 1+time.Duration(r.Int63n(int64(frac-1)))) // inside the second E lies in
+			}
+			sort.Slice(before, func(a, b int) bool { return before[a] > before[b] })
+			w := func(extra map[string]any) map[string]any {
+				extra["seed"], extra["expiry_instant"] = sub.Seed(i), E.Format(time.RFC3339Nano)
+				return extra
+			}
+			for _, d := range before {
+				at := E.Add(-d)
+				if !at.After(time.Now()) {
+					continue
+				}
+				time.Sleep(time.Until(at))
+				if at.Unix() == E.Unix() {
+					sameSecond = true
+				}
+				l.GC()
+				sub.Count("collections_before_expiry", 1)
+				es, err := l.Query(nflog.QGroupKey(K), nflog.QReceiver(rc))
+				if err != nil || len(es) != 1 {
+					sub.Violation("entry-collected-before-its-expiry", w(map[string]any{"collection_at": at.Format(time.RFC3339Nano), "before_expiry_by": d.String()}))
+					return
+				}
+			}
+			for _, d := range []time.Duration{0, time.Nanosecond, time.Millisecond, 2 * time.Second} {
+				time.Sleep(time.Until(E.Add(d)))
+				l.GC()
+				sub.Count("collections_after_expiry", 1)
+				if es, _ := l.Query(nflog.QGroupKey(K), nflog.QReceiver(rc)); len(es) != 0 {
+					sub.Violation("expired-entry-returned-after-garbage-collection", w(map[string]any{"collection_after_expiry_by": d.String()}))
+					return
+				}
+				if es, _ := l.Query(nflog.QGroupKey(S), nflog.QReceiver(rc)); len(es) != 1 {
+					sub.Violation("entry-collected-before-its-expiry", w(map[string]any{"entry": "sibling with a later expiry", "collection_after_the_other_entrys_expiry_by": d.String()}))
+					return
+				}
+			}
+		})
+		sub.Case(vf.Digest(sub.Seed(i)), sameSecond)
+	})
+}
